@@ -454,7 +454,7 @@ impl W {
             None => {
                 let k = match self.tape.draw(3) {
                     0 | 1 => 0,
-                    _ => 1 + self.tape.draw(7) as u8,
+                    _ => 1 + self.tape.draw(8) as u8,
                 };
                 self.err_kind = Some(k);
                 k
@@ -475,6 +475,12 @@ impl W {
                 if read { zlink_core::Error::SocketRead } else { zlink_core::Error::SocketWrite }
             }
             6 => io(K::UnexpectedEof),
+            // a transport of its own kind (a bounded queue, a fixed-frame link) may turn a write down
+            // with any of the library's error values
+            8 if !read => {
+                self.stat("fault.error_kind_zlink_buffer_overflow_from_the_transport");
+                zlink_core::Error::BufferOverflow
+            }
             _ => io(K::Other),
         }
     }
